@@ -48,6 +48,13 @@ def gen(seed, tier):
         # all single-bit errors in bits 6..n
         for b in range(6, nb + 1):
             hist(f, "%0*X" % (nb // 4, v ^ (1 << (nb - b))))
+    # DF11: every error pattern on the last byte that touches bit 7 of the remainder (the interrogator code occupies bits 0-6
+    # only): rejected whatever the arithmetic relation between received and computed parity
+    for _ in range(2 if tier == "quick" else 12):
+        f11 = hx(df11(r.choice(ICAOS), r.randint(0, 7), r.choice([0, r.randint(1, 127)])), 56)
+        v11 = int(f11, 16)
+        for e in range(0x80, 0x100):
+            hist(f11, hx(v11 ^ e, 56))
     # special values of the parity field itself: all zeros, all ones, the CRC with the address overlaid (as DF4/5/20/21 do),
     # the parity of another frame -- each a burst of at most 24 bits on a valid squitter
     for _ in range(12 if tier == "quick" else 200):
